@@ -36,6 +36,9 @@ def observe(arg):
                         first += P.formula("H[1]2O")
                         first.density = 1.234
                         ev["prefix"] = bag(P.formula("%s:%s" % (typ, s)))
+                        if len(s) % 2:          # the same through a private table
+                            from .formexec import _tab
+                            ev["prefix"] = bag(P.formula("%s:%s" % (typ, s), table=_tab("T1")))
                 except Exception as e:
                     ev["exc"] = "%s: %s" % (type(e).__name__, str(e)[:100])
                 out.append(ev)
